@@ -159,7 +159,8 @@ impl InitHeader {
         let data = if payload_len > Self::MAX_PAYLOAD_SIZE {
             data
         } else {
-            &data[..payload_len]
+            // a packet shorter than the payload it announces is malformed
+            data.get(..payload_len).ok_or(())?
         };
         Ok((
             Self {
@@ -227,8 +228,8 @@ impl PacketHeader {
     /// Try parsing a byte buffer into a CTAP2 HID packet with its associated data payload.
     // TODO: return actual error type
     fn try_from(data: &[u8]) -> Result<(Self, &[u8]), ()> {
-        // must be at least the length of a continuation header
-        if data.len() < ContHeader::HEADER_SIZE {
+        // must be at least the length of a continuation header and at most one packet
+        if data.len() < ContHeader::HEADER_SIZE || data.len() > MAX_PACKET_SIZE {
             return Err(());
         }
         let (channel_bytes, data) = data.split_at(4);
@@ -311,6 +312,8 @@ enum ExtensionError {
     OutOfSequence,
     /// Packet is not of the same channel ID as the current message
     WrongChannel,
+    /// Packet carries fewer bytes than the message still needs from it
+    PacketTooShort,
 }
 
 /// Error occuring when trying to create a new message to send to a client
@@ -423,13 +426,17 @@ impl Message {
         }
 
         if header.seq == self.sequence {
-            self.sequence += 1;
             let remaining_bytes = self.payload_len - self.payload.len();
             const MAX_CONT_PACKET_LEN: usize = MAX_PACKET_SIZE - ContHeader::HEADER_SIZE;
             if remaining_bytes <= MAX_CONT_PACKET_LEN {
-                self.payload.extend_from_slice(&data[..remaining_bytes]);
+                let data = data
+                    .get(..remaining_bytes)
+                    .ok_or(ExtensionError::PacketTooShort)?;
+                self.sequence += 1;
+                self.payload.extend_from_slice(data);
                 Ok(true)
             } else {
+                self.sequence += 1;
                 self.payload.extend_from_slice(data);
                 Ok(false)
             }
